@@ -81,12 +81,16 @@ Definition c12_wasm_check : bool :=
 Definition find_wasm (v : string) : option wasm_row :=
   find (fun w => String.eqb (w_variant w) v) wasm_table.
 
-(* kill switch: the admin check is the first thing the handler does *)
+(* kill switch: the admin check stands before any write *)
 Definition kill_switch_ok : bool :=
   match find_handler "esm.MsgKillSwitch" with
-  | Some h => match h_items h with IGuard (GAdmin _) :: _ => true | _ => false end
+  | Some h => scan helper_rows true is_admin_guard scan_fuel (h_items h)
   | None => false
   end.
+
+(* every rung of every ladder names one of the two networks *)
+Definition c12_wasm_rungs_named : bool :=
+  forallb (fun w => forallb (fun r => mem (r_chain r) named_networks) (w_ladder w)) wasm_table.
 
 (* ================================================================ C14 *)
 (* handlers that open, enlarge or draw from a position, plus vault repay / close / withdraw *)
